@@ -194,14 +194,26 @@ def solve_steps(ctx, rng, idx):
                        dkind="smooth" if iname in gen.IMPLICIT else None)
     cfl = float(rng.uniform(0.05, 0.4))
     nstep = int(rng.integers(1, 7))
-    ctx.describe(integrator=iname, dtlocal=dtlocal, cfl=cfl, nstep=nstep, **s.desc())
-    gen.integ(iname)(s.mesh, s.disc).solve(s.field, cfl, stop={"maxit": nstep}, directives={"dtlocal": True} if dtlocal else {})
+    hist = int(rng.integers(3))       # 0: fresh solver; 1: the solver has solved before with another CFL; 2: ... and the observed call is a restart
+    ctx.describe(integrator=iname, dtlocal=dtlocal, cfl=cfl, nstep=nstep, history=["fresh", "solve(other cfl) before", "solve(other cfl) then restart"][hist], **s.desc())
+    solver = gen.integ(iname)(s.mesh, s.disc)
+    f0 = s.field
+    if hist:
+        pre = solver.solve(s.field, cfl * float(rng.choice([0.45, 1.7])), stop={"maxit": 2})
+        if hist == 2:
+            f0 = pre[-1]
+    if not all(np.all(np.isfinite(d)) for d in f0.data):
+        raise core.Skip("nonfinite")
+    (solver.restart if hist == 2 else solver.solve)(f0, cfl, stop={"maxit": nstep}, directives={"dtlocal": True} if dtlocal else {})
     log = solvelog.LOGS[-1]
     cls = "solve:local" if dtlocal else "solve:global"
     for it in log.iterations():
-        cell_dt = it["dt"]
+        # the cell time steps are recomputed here from the trajectory state and the CFL number of THIS call (not taken from a recorded
+        # calc_timestep event: an integrator that does not ask again would otherwise not be noticed)
+        with probes.quiet():
+            cell_dt = np.asarray(s.disc.calc_timestep(ffield.fdata(s.model, s.mesh, it["from"]["data"], t=it["from"]["time"]), cfl), float)
         used = it["main"]["dt"]
-        if cell_dt is None or not np.all(np.isfinite(cell_dt)):
+        if not np.all(np.isfinite(cell_dt)):
             continue
         if dtlocal:
             ok = np.ndim(used) == 1 and np.array_equal(np.asarray(used, float), cell_dt)
